@@ -29,7 +29,11 @@ def listBuiltins : List String := ["sorted", "reversed", "enumerate", "zip", "an
     implementations the model knows. -/
 def FactsOK : Bool :=
   (listBuiltins ++ ["len", "join", "map", "filter", "reduce"]).all (fun n => raw.natives.any (·.1 == n)) &&
-  (raw.equalVia == "reflect.DeepEqual")
+  (raw.equalVia == "reflect.DeepEqual") &&
+  -- `type pyFrozenList struct { pyList }` and the wrapper redefines nothing the transparent operations go through
+  -- (Operator, Len, IsTruthy, Type, the iteration): that is why they cannot tell the wrapper from the list
+  raw.frozenListEmbedsList &&
+  raw.frozenListMethods.all (fun m => ["Freeze", "IndexAssign", "MarshalJSON", "String"].contains m)
 
 theorem C18_facts_ok : FactsOK = true := by decide
 
@@ -42,13 +46,23 @@ def globalsOfRun (r : Except String (List (String × Globals) × List (String ×
   | .ok ([(_, g)], _) => some g
   | _ => none
 
+/-- `X = v` defined in the package file itself, then the program. -/
+def localRun (fuel : Nat) (v : Expr) (prog : Program) :=
+  runPackages F fuel [] [("p", Stmt.assign "X" v :: prog)]
+
+/-- `X = v` defined in a subincluded file (so `X` arrives frozen), then the program. -/
+def importedRun (fuel : Nat) (v : Expr) (prog : Program) :=
+  runPackages F fuel [(label, [Stmt.assign "X" v])]
+    [("p", Stmt.expr (.call "subinclude" [(none, .str label)]) :: prog)]
+
+def errorOf {α : Type} : Except String α → Option String
+  | .error e => some e
+  | .ok _ => none
+
 /-- The program over `X` evaluates on the locally defined value, and evaluates differently (or not at all) on the
-    imported one. -/
+    imported one.  (`false` when the local run fails; the witnesses below say which of the two cases they are.) -/
 def differs (fuel : Nat) (v : Expr) (prog : Program) : Bool :=
-  let localRun := globalsOfRun (runPackages F fuel [] [("p", Stmt.assign "X" v :: prog)])
-  let sub := Stmt.expr (.call "subinclude" [(none, .str label)])
-  let importedRun := globalsOfRun (runPackages F fuel [(label, [Stmt.assign "X" v])] [("p", sub :: prog)])
-  match localRun, importedRun with
+  match globalsOfRun (localRun fuel v prog), globalsOfRun (importedRun fuel v prog) with
   | some g, some g' => !(g == g')
   | some _, none => true
   | none, _ => false
@@ -57,9 +71,12 @@ def differs (fuel : Nat) (v : Expr) (prog : Program) : Bool :=
 def Transparent : Prop := ∀ (fuel : Nat) (v : Expr) (prog : Program), differs fuel v prog = false
 
 def vList : Expr := .list 1 [.int 3, .int 1, .int 2]
+def vDict : Expr := .dict [(.str "a", .int 1)]
 
 /-- `r = X == [3, 1, 2]` -/
 def wEq : Program := [.assign "r" (.chain none (.name "X") [(.eq, none, .list 2 [.int 3, .int 1, .int 2])])]
+/-- `r = X == {"a": 1}` -/
+def wDictEq : Program := [.assign "r" (.chain none (.name "X") [(.eq, none, .dict [(.str "a", .int 1)])])]
 /-- `r = sorted(X)` -/
 def wSorted : Program := [.assign "r" (.call "sorted" [(none, .name "X")])]
 /-- `r = X[0:1]` -/
@@ -71,19 +88,43 @@ def okProg : Program :=
    .assign "w" (.chain none (.name "X") [(.add, none, .list 2 [.int 4])])]
 
 set_option maxRecDepth 100000 in
-theorem C18_witness_eq : differs 60 vList wEq = true := by decide +kernel
+/-- `==`: both runs succeed, with different values of `r` (`True` locally, `False` on the imported list). -/
+theorem C18_witness_eq :
+    differs 60 vList wEq = true ∧
+    (globalsOfRun (localRun 60 vList wEq)).isSome = true ∧ (globalsOfRun (importedRun 60 vList wEq)).isSome = true := by
+  decide +kernel
 
 set_option maxRecDepth 100000 in
-theorem C18_witness_builtin_asserts_pylist : differs 60 vList wSorted = true := by decide +kernel
+/-- … the same for a dict: `reflect.DeepEqual(pyFrozenDict{…}, pyDict{…})` is false. -/
+theorem C18_witness_dict_eq :
+    differs 60 vDict wDictEq = true ∧
+    (globalsOfRun (localRun 60 vDict wDictEq)).isSome = true ∧
+    (globalsOfRun (importedRun 60 vDict wDictEq)).isSome = true := by
+  decide +kernel
 
 set_option maxRecDepth 100000 in
-theorem C18_witness_type_switch : differs 60 vList wSlice = true := by decide +kernel
+/-- `sorted`: the local run succeeds, the imported one fails in the builtin's own type assertion. -/
+theorem C18_witness_builtin_asserts_pylist :
+    differs 60 vList wSorted = true ∧ (globalsOfRun (localRun 60 vList wSorted)).isSome = true ∧
+    errorOf (importedRun 60 vList wSorted) = some "Argument seq must be a list, not list" := by
+  decide +kernel
 
 set_option maxRecDepth 100000 in
-example : differs 60 vList okProg = false := by decide +kernel
+/-- slicing: the local run succeeds, the imported one fails in `interpretSlice`'s type switch. -/
+theorem C18_witness_type_switch :
+    differs 60 vList wSlice = true ∧ (globalsOfRun (localRun 60 vList wSlice)).isSome = true ∧
+    errorOf (importedRun 60 vList wSlice) = some "Unsliceable type list" := by
+  decide +kernel
+
+set_option maxRecDepth 100000 in
+/-- A program made of transparent operations: both runs succeed with the same globals. -/
+theorem C18_sample_transparent_program :
+    differs 60 vList okProg = false ∧ (globalsOfRun (localRun 60 vList okProg)).isSome = true ∧
+    (globalsOfRun (importedRun 60 vList okProg)).isSome = true := by
+  decide +kernel
 
 theorem C18_main_fails : ¬ Transparent := by
-  intro h; have := h 60 vList wEq; rw [C18_witness_eq] at this; cases this
+  intro h; have := h 60 vList wEq; rw [C18_witness_eq.1] at this; cases this
 
 /-! ### What holds -/
 
@@ -95,10 +136,24 @@ theorem C18_transparent_ops (a o l c : Nat) (idx item : Val) (neg : Bool) (F' : 
     objLen (.list true a o l c) = objLen (.list false a o l c) ∧
     iterOf (.list true a o l c) = iterOf (.list false a o l c) ∧
     binOp F' .add (.list true a o l c) other = binOp F' .add (.list false a o l c) other ∧
-    (∀ a2 o2 l2 c2, binOp F' .add (.list false a2 o2 l2 c2) (.list true a o l c)
-        = binOp F' .add (.list false a2 o2 l2 c2) (.list false a o l c)) ∧
     binOp F' .mul (.list true a o l c) (.int n) = binOp F' .mul (.list false a o l c) (.int n) :=
-  ⟨rfl, rfl, rfl, rfl, rfl, fun _ _ _ _ => rfl, rfl⟩
+  ⟨rfl, rfl, rfl, rfl, rfl, rfl⟩
+
+/-- `+` with the frozen list on the **right**: the same sum as with the plain list exactly when `pyList.Operator`
+    has its branch for a `pyFrozenList` operand (regenerated fact `addAcceptsFrozen`); without that branch the sum
+    fails, in every state. -/
+theorem C18_add_frozen_right (F' : Facts) (a o l c a2 o2 l2 c2 : Nat) :
+    (F'.addAcceptsFrozen = true →
+      binOp F' .add (.list false a2 o2 l2 c2) (.list true a o l c)
+        = binOp F' .add (.list false a2 o2 l2 c2) (.list false a o l c)) ∧
+    (F'.addAcceptsFrozen = false → ∀ st,
+      (binOp F' .add (.list false a2 o2 l2 c2) (.list true a o l c)).run st = .error "Cannot add list and list") := by
+  constructor
+  · intro h; simp [binOp, h]
+  · intro h st; simp [binOp, h]; rfl
+
+/-- Today the branch is there. -/
+theorem C18_add_frozen_right_today : F.addAcceptsFrozen = true := by decide
 
 /-- The same for dicts: index, `in`, `len`, `|` with the frozen dict on the left. -/
 theorem C18_transparent_dict_ops (d : Nat) (idx item : Val) (neg : Bool) (F' : Facts) (other : Val) :
@@ -150,13 +205,17 @@ theorem C18_builtins_reject (F' : Facts) (name what : String) (h : F'.frozenOK n
   refine ⟨s!"{what} must be a list, not list", ?_⟩
   simp [asListFor, h, fail, StateT.run, throw, throwThe, MonadExceptOf.throw, StateT.lift, bind, Except.bind]
 
-/-- Which builtins of the model accept a frozen list today, read off the regenerated table. -/
-def acceptsFrozenToday : List (String × Bool) := (listBuiltins ++ ["len", "join"]).map fun n => (n, F.frozenOK n)
+/-- Which list-taking builtins accept a frozen list today, read off the regenerated table.  (`map`, `filter` and
+    `reduce` call back into the interpreter and are not part of the Lean interpreter model: their rows are checked
+    here, their behaviour by the direct oracle of the harness only.) -/
+def acceptsFrozenToday : List (String × Bool) :=
+  (listBuiltins ++ ["map", "filter", "reduce", "len", "join"]).map fun n => (n, F.frozenOK n)
 
 /-- The table as extracted from the pinned source: only `join` (through `asStringList`) and `len` accept a frozen
-    list; `sorted reversed enumerate zip any all min max` do not. -/
+    list; `sorted reversed enumerate zip any all min max map filter reduce` do not. -/
 theorem C18_table_today :
     acceptsFrozenToday = [("sorted", false), ("reversed", false), ("enumerate", false), ("zip", false),
-      ("any", false), ("all", false), ("min", false), ("max", false), ("len", true), ("join", true)] := by decide
+      ("any", false), ("all", false), ("min", false), ("max", false), ("map", false), ("filter", false),
+      ("reduce", false), ("len", true), ("join", true)] := by decide
 
 end PlzVerif.Props.C18
